@@ -23,7 +23,7 @@ EXPLANATION = (
     "container, through order-preserving operations only; a job is marked handled (and leaves its queue) in the round it is "
     "assigned; the priority scheduler never queues an operator that is already queued.  (5) K17 sibling rule: a scheduler that "
     "can emit more than one operator per container consults multi_operator_containers (the executor asserts on it).  (6) K13 "
-    "end-of-run reductions are guarded against empty inputs.  (7) K14a no exact float equality in parameter validation.  (8) K9 "
+    "end-of-run reductions are guarded against empty inputs.  (7) K14a no exact float equality in parameter validation; validation refuses only what the documented domain excludes; no assertion / raise of the executor holds an incrementally kept float counter (free CPU / RAM, used RAM) against a literal or the capacity.  (8) K9 "
     "zero-tick hazards: every operator occupies >= 1 tick and every suspension lasts >= 1 tick.  (9) priority-pool's depletion "
     "assertion is protected by take-all-or-strictly-less sizing in all three branches.")
 UNDECIDED = "exception-freedom over the whole configuration space is not decided; only admissibility by construction and the enumerated hazard classes are"
